@@ -181,7 +181,9 @@ fn examine(h: &History, r: &mut Restarted, allowed: &BTreeSet<usize>, rep: &mut 
         if t != tip_before {
             let sibling = w.blocks[t].id == w.blocks[tip_before].id;
             let kind = if sibling { "equal-height-competitor-chosen-by-load-order" } else { "other-tip" };
-            rep.violate(&format!("{}/clean-restart-different-tip/{}", keyp, kind), format!("before shutdown {} (id {}) after restart {} (id {})", w.blocks[tip_before].label, w.blocks[tip_before].id, w.blocks[t].label, w.blocks[t].id), case.clone());
+            // keyed with the history and both tips: the open finding lists exactly the histories
+            // in which the later-delivered sibling was the tip and the earlier one loads first
+            rep.violate_inst(&format!("{}/clean-restart-different-tip/{}", keyp, kind), &format!("{}|{}|{}|{}", h.label, case["delete_old_blocks"], w.blocks[tip_before].label, w.blocks[t].label), format!("before shutdown {} (id {}) after restart {} (id {})", w.blocks[tip_before].label, w.blocks[tip_before].id, w.blocks[t].label, w.blocks[t].id), case.clone());
             return;
         }
         let lo = o.tip_id.saturating_sub(g);
